@@ -831,6 +831,31 @@ static void Generate(uint64_t seed, bool thorough)
 		for (int i = 0; i < depth; i++) o += "{\"a\":";
 		DoJsonText(Hex(o + "1" + std::string(depth, '}')));
 	}
+	/* the nesting limit of JsonDecode (json.cpp l_JsonMaxNestingDepth = 1000; repair of F-C20a): exactly at the
+	 * boundary for arrays, objects and mixtures, and far beyond it -- directly, through DecodeMessage, and through
+	 * the receive path on the coroutine stack */
+	{
+		auto nestArr = [](int d) { return std::string(d, '[') + std::string(d, ']'); };
+		auto nestObj = [](int d) { std::string o; for (int i = 1; i < d; i++) o += "{\"a\":"; o += "{}"; o += std::string(d - 1, '}'); return o; };
+		auto nestMix = [](int d) { std::string o, c; for (int i = 1; i < d; i++) { if (i % 2) { o += "{\"k\":"; c = "}" + c; } else { o += "[1,"; c = "]" + c; } } return o + "[]" + c; };
+		for (int d : { 998, 999, 1000, 1001, 1002, 2000 }) {
+			for (const std::string& t : { nestArr(d), nestObj(d), nestMix(d), nestArr(d).substr(0, d), "[" + nestObj(d - 1) + "," + nestObj(d) + "]" }) {
+				DoJsonText(Hex(t));
+				DoMessage(Hex(t));
+			}
+			DoTls('c', 1048576, Hex(Frame(nestObj(d))), "-", true);
+			DoTls('s', -1, Hex(Frame(nestObj(d))), "-", true);
+			DoTls('c', -1, Hex(Frame(nestArr(d))), "-", true);
+		}
+		for (int d : { 12000, 100000 }) {
+			DoJsonText(Hex(std::string(d, '[')));
+			DoMessage(Hex(nestObj(d)));
+			DoTls('c', 1048576, Hex(Frame(std::string(d, '['))), "-", true);
+			DoTls('c', 1048576, Hex(Frame(nestArr(d))), "-", true);
+			DoTls('c', 1048576, Hex(Frame(nestObj(d))), "-", true);
+			DoTls('s', 1048576, Hex(Frame(nestObj(d))), "-", true);
+		}
+	}
 
 	/* --- buffered reader: every chunking of short framed streams (exhaustive), random chunkings of long ones */
 	{
